@@ -109,11 +109,13 @@ def run_one(slot_k, m, all_checks):
     fired = {}
     for c in checks:
         t0 = time.time()
-        rc, out = sh(["python3", os.path.join(VERIF, "checks", "run.py"), c, "--tier", "quick"], env=env2, cwd=VERIF)
+        tier = os.environ.get("AISVERIF_MUT_TIER", "quick")
+        rc, out = sh(["python3", os.path.join(VERIF, "checks", "run.py"), c, "--tier", tier], env=env2, cwd=VERIF, timeout=4 * 3600)
         sigs = re.findall(r"^  \[[^\]]*\] ([^:]+(?::[^ :]+)?)", out, re.M)
         fired[c] = {"rc": rc, "wall": round(time.time() - t0, 1), "signatures": sorted(set(sigs))[:6],
                     "known_finding_lines": out.count("KNOWN-FINDING:"), "first": (re.findall(r"^  \[.*", out, re.M) or [""])[0][:300]}
     res["checks"] = fired
+    res["tier"] = os.environ.get("AISVERIF_MUT_TIER", "quick")
     res["caught_by"] = [c for c, v in fired.items() if v["rc"] == 1]
     res["targets_caught"] = [c for c in props if fired.get(c, {}).get("rc") == 1]
     return res
